@@ -42,26 +42,32 @@ What is proved, and for which operations:
      (blocking clause added); theory constructors `idlNewVar`, `rdlNewVar`, `lraNewVar`,
      `idlNewDistance`, `rdlNewDistance` (root level; `TModel` of the extended network restricts to a
      `TModel` of the old one, so every old T-entailment survives).  Side conditions on the run:
-     `NetRun.guards` (`ConflictsCurrent` for `lra.check`; automatic when the tableau has no rows - and none
-     of the admitted constructors creates a row) and `NetRun.rooms` (numeric preconditions of the DL
+     `NetRun.guards` (`ConflictsCurrent` for `lra.check`; automatic when the tableau has no rows - rows are
+     only created by the slack-creating case of `lraNewVarLin / lraNewRel`, see below) and `NetRun.rooms` (numeric preconditions of the DL
      constructors: the no-overflow room of C10 for IDL, finite weights with integer ε part for RDL).
      Also admitted: `bj cnfl` (`backtrackAnalyzeAndBackjump` on a clause given from outside; its hypotheses -
      the clause is T-entailed by `orig` and all its literals are false - are part of `NetRun.room`;
      stand-alone: `C07N_bj_sound`), and `Net.popTo` keeps the invariant (`C07N_popTo_inv`).
      Conservativity: `C07N_idlNewDistance_conservative` (every T-model of the old network extends to the
      new one); for the `new_var`s and the SAT constructors the T-models are literally the same.
-     Round 5: also admitted are the relation requests of the difference logics `idlNewRel`, `rdlNewRel`
+     Rounds 5/6: also admitted are the relation requests of the difference logics `idlNewRel`, `rdlNewRel`
      (`new_lt … new_gt` and `new_eq`: zero, one or two `new_distance`s and, for `new_eq`, their conjunction;
      the ghost set grows by the CNF of the resulting SAT core; `C07N_dl_relations_sound`; side condition
      in `NetRun.room`: the `new_distance` side conditions for the constraints of the RESULTING theory), and
-     the LRA requests `lraNewVarLin`, `lraNewRel` (`new_var(lin)`, `new_lt … new_gt`) WHEN THE EXPRESSION
-     NAMES AN EXISTING VARIABLE, i.e. the call creates no slack variable and no tableau row
-     (`C07N_lra_requests_sound`; `NetRun.room`: `Lra.LinOK` and "the number of LRA variables does not
-     grow"; e.g. a bound `x ≤ c` on a variable created by `lraNewVar`).  So histories may now create LRA
-     assertions, assert and propagate them (`lra.propagateLit` records unate lemmas, `lra.check` runs on the
-     row-free tableau) - and `guards` is still automatic from `Net.init` (`C07N_all_histories_init_noGuard`).
-     NOT admitted (see the NOT PROVED block): `lraNewVarLin` / `lraNewRel` that create a slack row,
-     `lraNewEq`, `check(lits)`.
+     the LRA requests `lraNewVarLin`, `lraNewRel` (`new_var(lin)`, `new_lt … new_gt`) for canonical expressions
+     over existing variables (`Lra.LinOK`, the only entry of `NetRun.room`), WHETHER OR NOT THEY CREATE A SLACK
+     VARIABLE AND ITS TABLEAU ROW (`C07N_lra_requests_sound`, `C07N_newSlack_sound`).  For the slack case the
+     theory invariants of `NetInv` were restated relative to the lemma-closed ghost set `orig ++ L`
+     (`C07N_netInv_def`, `C07N_tentails_cut`), the interval evaluation `lb(lin) / ub(lin)` was proved sound in
+     the ε-rational semantics of `BoundsJust` (`C07N_interval_eps`), and at root level every assigned
+     literal is entailed by `orig ++ L` (`C07N_root_true`).
+     With rows in the tableau the side condition `guards` (`ConflictsCurrent` for `lra.check`) is a genuine
+     hypothesis of `C07N_all_histories_init`; on a concrete run it is established by evaluation
+     (`C07N_conflictsCurrent_check`).  It stays automatic when no LRA request creates a slack variable
+     (`NetRun.noSlacks`, `C07N_all_histories_init_noGuard`).
+     `lraNewEq` is admitted too (`C07N_lraNewEq_sound`; the registry invariant `NetReg.sa`: the cached assertion
+     literals `sAsrts` name existing SAT variables).
+     NOT admitted (see the NOT PROVED block): `check(lits)`.
 
 -- CORRECTED: target 1 was described as `TEntails n' [] cnfl` ("the conflict clause is a theory
 -- lemma").  For IDL / RDL that is what is proved (`C07N_dl_conflict_pure`).  For LRA it is FALSE: a
@@ -71,6 +77,12 @@ What is proved, and for which operations:
 -- The statement proved is `TEntails n' orig cnfl`, under the invariant `LraJ orig` (every bound holds
 -- in every T-consistent model of `orig` that makes its reason true), which the bound assertions,
 -- `check`, `push`, `pop` keep.  See `C07N_lra_not_pure` for the counterexample.
+-- CORRECTED (round 6): `LraJ orig` - relative to the added clauses alone - is NOT an invariant once a slack
+-- variable is created at root level after theory lemmas were recorded: the TRUE-reason bounds of the slack are
+-- computed from bounds whose reasons are root-level literals, and those are consequences of `orig ++ L` (`L`
+-- the recorded lemmas, possibly of IDL / RDL), not of `orig` modulo LRA alone.  `NetInv` now carries the theory
+-- invariants relative to `orig ++ L`; since every lemma is T-entailed by `orig`, every T-entailment from
+-- `orig ++ L` is one from `orig` (`C07N_tentails_cut`), so the statements of items 1-4 are unchanged.
 -- CORRECTED: `ThInv` after `Net.pop` needs "the popped SAT core still has the values it had at the
 -- matching push" (hypothesis `hs`, as in `C10X_pop_pathinv`); for `popTo` this is `Net.FramesLe`.
 -- CORRECTED: `C07N_learnFrom_sound` needs, besides "all literals of `cnfl` are false", that one of
@@ -84,6 +96,8 @@ import OratioProofs.Lemmas.NetSoundExample
 import OratioProofs.Lemmas.NetSoundCex
 import OratioProofs.Lemmas.NetInvEx
 import OratioProofs.Lemmas.NetInvEx2
+import OratioProofs.Lemmas.NetInvEx3
+import OratioProofs.Lemmas.NetInvF
 import OratioProofs.Lemmas.NetBj
 
 namespace Oratio
@@ -340,22 +354,29 @@ theorem C07N_wfS_def (s : Sat) :
   ⟨fun h => ⟨h.a, h.lvl0, h.idlt, h.ids, h.rng, h.r, h.w⟩, fun ⟨a, b, c, d, e, f, g⟩ => ⟨a, b, c, d, e, f, g⟩⟩
 
 /-- the invariant of the network: the SAT-level soundness invariant over `orig ++ L` (`L` the ghost list
-    of theory lemmas and theory conflict clauses, each T-entailed by `orig`), the theory invariants with
-    one ghost frame per decision level, `FramesLv` (every value a frame's SAT core had is a current
+    of theory lemmas and theory conflict clauses, each T-entailed by `orig`), the theory invariants - RELATIVE TO
+    THE LEMMA-CLOSED SET `orig ++ L` (round 6: `LraJ (orig ++ L)`, i.e. every bound holds in the LRA-consistent
+    models of the added clauses and the lemmas; what is T-entailed by `orig ++ L` is T-entailed by `orig`,
+    `C07N_tentails_cut`) - with one ghost frame per decision level, `FramesLv` (every value a frame's SAT core had is a current
     value of a level below the one the frame opened), and the registries `NetReg`: every assertion /
     distance constraint is controlled by an existing SAT variable, and the LRA theory satisfies
-    `Lra.GoodState` (C09R: no zero coefficient in a row, ...) and its assertion watch lists only name
-    existing SAT variables -/
+    `Lra.GoodState` (C09R: no zero coefficient in a row, ...) and its assertion watch lists and its cache of
+    assertion literals only name existing SAT variables -/
 theorem C07N_netInv_def (n : Net) (orig L : Cnf) (fr : List Frame) :
     NetInv n orig L fr ↔
       (n.sat.WfS ∧ n.sat.Ent (orig ++ L) orig ∧ ∀ m, n.sat.DecOK m) ∧ (∀ c ∈ L, TEntails n orig c) ∧
-      ThInv n orig fr ∧ FramesLv n.sat fr ∧ fr.length = n.sat.decisionLevel ∧
+      ThInv n (orig ++ L) fr ∧ FramesLv n.sat fr ∧ fr.length = n.sat.decisionLevel ∧
       ((∀ e ∈ n.lra.vAsrts, e.1 < n.sat.vals.length) ∧ (∀ c ∈ n.idl.varDists, c.b < n.sat.vals.length) ∧
         (∀ c ∈ n.rdl.varDists, c.b < n.sat.vals.length) ∧ Lra.GoodState n.lra ∧
-        (∀ x, ∀ b ∈ n.lra.aWatches.getD x [], b < n.sat.vals.length)) :=
+        (∀ x, ∀ b ∈ n.lra.aWatches.getD x [], b < n.sat.vals.length) ∧
+        (∀ e ∈ n.lra.sAsrts, e.2.var < n.sat.vals.length)) :=
   ⟨fun h => ⟨⟨h.sat.wf, h.sat.ent, h.sat.dec⟩, h.lemmas, h.th, h.flv, h.flen, h.reg.lra, h.reg.idl, h.reg.rdl, h.reg.good,
-      h.reg.aw⟩,
-    fun ⟨⟨a, b, c⟩, d, e, f, g, r1, r2, r3, r4, r5⟩ => ⟨⟨a, b, c⟩, d, e, f, g, ⟨r1, r2, r3, r4, r5⟩⟩⟩
+      h.reg.aw, h.reg.sa⟩,
+    fun ⟨⟨a, b, c⟩, d, e, f, g, r1, r2, r3, r4, r5, r6⟩ => ⟨⟨a, b, c⟩, d, e, f, g, ⟨r1, r2, r3, r4, r5, r6⟩⟩⟩
+
+/-- the recorded lemmas may be cut out of the premises of a T-entailment -/
+theorem C07N_tentails_cut (n : Net) (orig L : Cnf) (c : Clause) (hl : ∀ d ∈ L, TEntails n orig d)
+    (h : TEntails n (orig ++ L) c) : TEntails n orig c := TEntails.cut hl h
 
 theorem C07N_netInv_sound (n : Net) (orig L : Cnf) (fr : List Frame) (h : NetInv n orig L fr) : NetSound n orig := h.sound
 
@@ -466,10 +487,10 @@ theorem C07N_init_ok : NetOK ⟨Net.init, []⟩ := netOK_init
 
 /-- without rows in the LRA tableau the side condition holds along every history -/
 theorem C07N_all_histories_noRows (fuel : Nat) (ops : List NetOp) (r r' : NetRun) (h : NetOK r)
-    (ht : r.n.lra.tableau = []) (hm : r.rooms fuel ops) (he : r.steps fuel ops = some r') :
+    (ht : r.n.lra.tableau = []) (hns : r.noSlacks fuel ops) (hm : r.rooms fuel ops) (he : r.steps fuel ops = some r') :
     NetOK r' ∧ NetSound r'.n r'.orig :=
-  ⟨(steps_ok ops r r' h (guards_noRows ops r ht hm) hm he).1,
-    (C07N_all_histories fuel ops r r' h (guards_noRows ops r ht hm) hm he).2.1⟩
+  ⟨(steps_ok ops r r' h (guards_noRows ops r ht hns) hm he).1,
+    (C07N_all_histories fuel ops r r' h (guards_noRows ops r ht hns) hm he).2.1⟩
 
 /-- non-vacuity (`NetEx.rootNet`: three IDL constraints at root level; history `assume b1`, `assume ¬b2`):
     the invariant holds of the start, the history runs, during the second call the IDL theory RECORDS the
@@ -482,6 +503,7 @@ example : NetOK ⟨NetEx.rootNet, []⟩ ∧ NetRun.steps 100 ⟨NetEx.rootNet, [
   have h0 : NetOK ⟨NetEx.rootNet, []⟩ := ⟨⟨[], [], NetEx.rootNet_inv⟩, Or.inl (by decide)⟩
   obtain ⟨a, b, c, d⟩ := NetEx.exFinal_ok
   have hs := (C07N_all_histories_noRows 100 NetEx.exHist _ _ h0 (by decide)
+    ⟨trivial, fun _ _ _ => ⟨trivial, fun _ _ _ => trivial⟩⟩
     ⟨trivial, fun _ _ _ => ⟨trivial, fun _ _ _ => trivial⟩⟩ NetEx.exFinal_run).2
   have horig : NetEx.exFinal.orig = [] := by decide
   rw [horig] at hs
@@ -587,34 +609,83 @@ theorem C07N_step_def_rel (fuel : Nat) (r : NetRun) (l : Lin) (rel : LRel) (drel
       (Net.idlNewRel r.n drel a b).map fun (_, n') => (⟨n', r.orig ++ n'.sat.toEnc.cnf⟩, true)) ∧
     (r.pre (.rdlNewRel drel a b) = true → r.step fuel (.rdlNewRel drel a b) =
       (Net.rdlNewRel r.n drel a b).map fun (_, n') => (⟨n', r.orig ++ n'.sat.toEnc.cnf⟩, true)) ∧
-    (r.room (.lraNewVarLin l) ↔ Lra.LinOK r.n.lra l ∧
+    (r.room (.lraNewVarLin l) ↔ Lra.LinOK r.n.lra l) ∧
+    (r.room (.lraNewRel rel a b) ↔ Lra.LinOK r.n.lra a ∧ Lra.LinOK r.n.lra b) ∧
+    (r.noSlack (.lraNewVarLin l) ↔
       ∀ v n', Net.lraNewVarLin r.n l = some (v, n') → n'.lra.vals.length = r.n.lra.vals.length) ∧
-    (r.room (.lraNewRel rel a b) ↔ Lra.LinOK r.n.lra a ∧ Lra.LinOK r.n.lra b ∧
+    (r.noSlack (.lraNewRel rel a b) ↔
       ∀ p n', Net.lraNewRel r.n rel a b = some (p, n') → n'.lra.vals.length = r.n.lra.vals.length) ∧
     (r.room (.idlNewRel drel a b) ↔ ∃ K E, r.n.idl.Exact K E ∧ Dl.ConstrsOk K r.n.idl ∧
       ∀ p n', Net.idlNewRel r.n drel a b = some (p, n') → Dl.ConstrsOk K n'.idl) ∧
     (r.room (.rdlNewRel drel a b) ↔ ∀ p n', Net.rdlNewRel r.n drel a b = some (p, n') →
       DlR.ConstrsOkR n'.rdl ∧ ∀ c ∈ n'.rdl.varDists, c.dist.inf.den = 1) := by
-  refine ⟨rfl, rfl, rfl, rfl, ?_, ?_, ?_, ?_, Iff.rfl, Iff.rfl, Iff.rfl, Iff.rfl⟩ <;>
+  refine ⟨rfl, rfl, rfl, rfl, ?_, ?_, ?_, ?_, Iff.rfl, Iff.rfl, Iff.rfl, Iff.rfl, Iff.rfl, Iff.rfl⟩ <;>
     (intro h; unfold NetRun.step; rw [if_neg (by simp [h])])
 
 /-- **the LRA requests `new_var(lin)` and `new_lt / new_leq / new_geq / new_gt`** at root level, for canonical
-    expressions over existing variables (`Lra.LinOK`), when the call creates no slack variable (the expression -
-    after the substitution of the basic variables - names an existing variable): the invariant is kept (in
-    particular `LraJ`, the registries, `Lra.GoodState`, and for a new assertion: its controlling SAT variable
-    is new and watched on the right LRA variable), and every T-model of the new network is a T-model of the
-    old one -/
+    expressions over existing variables (`Lra.LinOK`), WHETHER OR NOT A SLACK VARIABLE AND ITS ROW ARE CREATED: the
+    invariant is kept (in particular `LraJ` for the TRUE-reason bounds of a new slack, `ExplInv`, `ValsOK`, the
+    registries, `Lra.GoodState`, and for a new assertion: its controlling SAT variable is new and watched on
+    the right LRA variable), and every T-model of the new network is a T-model of the old one -/
 theorem C07N_lra_requests_sound (n : Net) (orig L : Cnf) (fr : List Frame) (h : NetInv n orig L fr)
     (hroot : n.sat.trailLim = []) :
     (∀ (l : Lin) (v : Nat) (n' : Net), Lra.LinOK n.lra l → lraNewVarLin n l = some (v, n') →
-      n'.lra.vals.length = n.lra.vals.length →
       NetInv n' orig L [] ∧ (∀ α, TModel n' α → TModel n α) ∧ n'.sat = n.sat) ∧
     (∀ (r : LRel) (a b : Lin) (l : Lit) (n' : Net), Lra.LinOK n.lra a → Lra.LinOK n.lra b →
-      lraNewRel n r a b = some (l, n') → n'.lra.vals.length = n.lra.vals.length →
+      lraNewRel n r a b = some (l, n') →
       NetInv n' orig L [] ∧ (∀ α, TModel n' α → TModel n α) ∧ n'.sat.trailLim = [] ∧ n'.sat.dead = n.sat.dead ∧
         n'.sat.queue = n.sat.queue) :=
-  ⟨fun l v n' hl he hns => h.at_lraNewVarLin hroot hl he hns,
-    fun r a b l n' ha hb he hns => h.at_lraNewRel hroot ha hb he hns⟩
+  ⟨fun l v n' hl he => h.at_lraNewVarLinG hroot hl he, fun r a b l n' ha hb he => h.at_lraNewRelG hroot ha hb he⟩
+
+/-- **`lra.new_eq(left, right)`** (`new_geq`, `new_leq` and the reified conjunction of the two answers) at root level
+    for canonical expressions over existing variables: the invariant is kept, the ghost set growing by the CNF
+    of the resulting SAT core; every T-model of the new network is a T-model of the old one.  (The answers
+    of the two requests name existing SAT variables: constants, a cached literal of `sAsrts` - registry
+    invariant `NetReg.sa` -, or the new controlling variable.) -/
+theorem C07N_lraNewEq_sound (n : Net) (orig L : Cnf) (fr : List Frame) (h : NetInv n orig L fr)
+    (hroot : n.sat.trailLim = []) (hd : n.sat.dead = false) (a b : Lin) (ha : Lra.LinOK n.lra a) (hb : Lra.LinOK n.lra b)
+    (l : Lit) (n' : Net) (he : lraNewEq n a b = some (l, n')) :
+    NetInv n' (orig ++ n'.sat.toEnc.cnf) L [] ∧ ∀ α, TModel n' α → TModel n α :=
+  h.at_lraNewEq hroot hd ha hb he
+
+/-- `lraNewEq` as an operation of the histories -/
+theorem C07N_step_def_lraNewEq (fuel : Nat) (r : NetRun) (a b : Lin) :
+    (r.pre (.lraNewEq a b) = (!r.n.sat.dead && r.n.sat.rootLevel)) ∧
+    (r.pre (.lraNewEq a b) = true → r.step fuel (.lraNewEq a b) =
+      (Net.lraNewEq r.n a b).map fun (_, n') => (⟨n', r.orig ++ n'.sat.toEnc.cnf⟩, true)) ∧
+    (r.room (.lraNewEq a b) ↔ Lra.LinOK r.n.lra a ∧ Lra.LinOK r.n.lra b) ∧
+    (r.noSlack (.lraNewEq a b) ↔ ∀ l n', Net.lraNewEq r.n a b = some (l, n') → n'.lra.tableau = r.n.lra.tableau) := by
+  refine ⟨rfl, ?_, Iff.rfl, Iff.rfl⟩
+  intro h; unfold NetRun.step; rw [if_neg (by simp [h])]
+
+/-- the slack-creating case of `new_var(lin)` on its own -/
+theorem C07N_newSlack_sound (n : Net) (orig L : Cnf) (fr : List Frame) (h : NetInv n orig L fr)
+    (hroot : n.sat.trailLim = []) (l : Lin) (hl : Lra.LinOK n.lra l) (slack : Nat) (t1 : Lra)
+    (hv : Lra.newVarLin n.sat n.lra l = some (slack, t1)) (hnew : t1.vals.length = n.lra.vals.length + 1)
+    (bd : List (Nat × Th)) :
+    NetInv { n with lra := t1, bound := bd } orig L [] ∧ ∀ α, TModel { n with lra := t1, bound := bd } α → TModel n α :=
+  h.at_newSlack hroot hl hv hnew bd
+
+/-- **soundness of the interval evaluation `lb(lin)`, `ub(lin)` in the ε-rational semantics of `BoundsJust`**: a
+    valuation `(σr x, σi x)` within the bounds of every variable gives the expression a value - rational part
+    `lin(σr)`, infinitesimal part `lin(σi)` without the known term - between `lb(lin)` and `ub(lin)`
+    (infinite bounds included; the sign of each coefficient decides which bound of the variable is used) -/
+theorem C07N_interval_eps (t : Lra) (g : Lra.GoodState t) (l : Lin) (hl : Lra.LinOK t l) (σr σi : Nat → Rat)
+    (h : ∀ x, x < t.vals.length → Lra.BLe (t.lb x) (Lra.nu σr σi x) ∧ Lra.VLe (Lra.nu σr σi x) (t.ub x)) :
+    Lra.BLe (t.lbLin l) (toLex (Lin.evalS l σr, Lin.evalS { l with known := R.zero } σi)) ∧
+    Lra.VLe (toLex (Lin.evalS l σr, Lin.evalS { l with known := R.zero } σi)) (t.ubLin l) :=
+  Lra.interval_eps g hl h
+
+/-- at root level every true literal - in particular the reason of every LRA bound - holds in every model of
+    the added clauses and the recorded lemmas -/
+theorem C07N_root_true (orig L : Cnf) (s : Sat) (h : Sat.SInv (orig ++ L) orig s) (hroot : s.trailLim = []) (p : Lit)
+    (hp : s.value p = some true) (α : Asg) (h0 : α 0 = false) (ho : α.cnf (orig ++ L) = true) : α.lit p = true :=
+  root_true h hroot hp α h0 ho
+
+/-- the side condition `ConflictsCurrent` can be established by evaluation: `ccB` is the same recursion with
+    Boolean tests -/
+theorem C07N_conflictsCurrent_check (fuel : Nat) (n : Net) (h : ccB n fuel = true) : ConflictsCurrent n fuel :=
+  ccB_sound fuel n h
 
 /-- a request that creates no slack variable creates no tableau row -/
 theorem C07N_lraNewRel_noRow (n : Net) (r : LRel) (a b : Lin) (l : Lit) (n' : Net)
@@ -653,9 +724,10 @@ theorem C07N_all_histories_init (fuel : Nat) (ops : List NetOp) (r' : NetRun)
     no slack variable: `NetRun.room`), so from `Net.init` the side condition `guards` is automatic: only the
     side conditions `rooms` of the constructors remain -/
 theorem C07N_all_histories_init_noGuard (fuel : Nat) (ops : List NetOp) (r' : NetRun)
-    (hm : NetRun.rooms fuel ⟨Net.init, []⟩ ops) (he : NetRun.steps fuel ⟨Net.init, []⟩ ops = some r') :
+    (hns : NetRun.noSlacks fuel ⟨Net.init, []⟩ ops) (hm : NetRun.rooms fuel ⟨Net.init, []⟩ ops)
+    (he : NetRun.steps fuel ⟨Net.init, []⟩ ops = some r') :
     NetOK r' ∧ NetSound r'.n r'.orig :=
-  C07N_all_histories_init fuel ops r' (guards_noRows ops _ rfl hm) hm he
+  C07N_all_histories_init fuel ops r' (guards_noRows ops _ rfl hns) hm he
 
 /-- non-vacuity from `Net.init` (`NetEx2.hist`): three IDL time points, three distance constraints `b1 b2 b3`, the
     IDL equality `x3 = x1 + 4` through `idlNewRel` (two constraints `b4 b5` and their reified conjunction `b6`),
@@ -673,37 +745,40 @@ example : NetRun.steps 100 ⟨Net.init, []⟩ NetEx2.hist = some (NetEx2.st 19) 
     (NetEx2.st 19).n.idl.varDists.map (·.b) = [1, 2, 3, 4, 5] := by
   obtain ⟨a, b, _, d, e, f, g, k⟩ := NetEx2.final_ok
   exact ⟨NetEx2.run_all, NetEx2.hist_rooms, a,
-    (C07N_all_histories_init_noGuard 100 NetEx2.hist _ NetEx2.hist_rooms NetEx2.run_all).2, b, d, e, f, g, k⟩
+    (C07N_all_histories_init_noGuard 100 NetEx2.hist _ NetEx2.hist_noSlacks NetEx2.hist_rooms NetEx2.run_all).2, b, d, e, f, g, k⟩
+
+/-- non-vacuity WITH A TABLEAU ROW (`NetEx3.hist`, from `Net.init`): two LRA variables; `lraNewRel .leq (y0 + y1) 3`
+    creates the slack variable `y2 = y0 + y1` with its row and the assertion `b1 : y2 ≤ 3`; `b2 : y0 ≥ 2`,
+    `b3 : y1 ≥ 2`; `lraNewEq y0 2` (answers `b2` from the cache, creates `b4 : y0 ≤ 2` and the reified conjunction
+    `b5 := b2 ∧ b4`); clause `[b1]`; `propagate` (the bound is asserted, `check` succeeds); `assume b2`; `assume b3`:
+    `lra.check` finds a conflict above root level, it cites `b3` (current level), `[¬b3, ¬b2]` is learnt, the
+    network backjumps to level 1 and `¬b3` is assigned.  The history runs, `rooms` and `guards` hold (the
+    latter by evaluation), and `C07N_all_histories_init` gives soundness of the final network. -/
+example : NetRun.steps 100 ⟨Net.init, []⟩ NetEx3.hist = some (NetEx3.st 10) ∧
+    NetRun.rooms 100 ⟨Net.init, []⟩ NetEx3.hist ∧ NetRun.guards 100 ⟨Net.init, []⟩ NetEx3.hist ∧
+    NetOK (NetEx3.st 10) ∧ NetSound (NetEx3.st 10).n (NetEx3.st 10).orig ∧
+    (NetEx3.st 10).n.sat.log = [[⟨3, false⟩, ⟨2, false⟩]] ∧ (NetEx3.st 10).n.lra.tableau.length = 1 ∧
+    (NetEx3.st 10).n.sat.decisionLevel = 1 ∧ (NetEx3.st 10).n.sat.value ⟨3, true⟩ = some false ∧
+    (NetEx3.st 10).n.lra.vAsrts.map (·.1) = [1, 2, 3, 4] := by
+  obtain ⟨a, b, c, _, e, f, _, g⟩ := NetEx3.final_ok
+  exact ⟨NetEx3.run_all, NetEx3.hist_rooms, NetEx3.hist_guards, a,
+    (C07N_all_histories_init 100 NetEx3.hist _ NetEx3.hist_guards NetEx3.hist_rooms NetEx3.run_all).2, b, c, e, f, g⟩
 
 -- NOT PROVED:
--- * `ConflictsCurrent` (the remaining side condition `NetRun.guard` / `BjGuard`): every conflict of `lra.check`
---   above root level cites a literal of the current decision level.  It needs "the bounds of the lower
---   levels are feasible" (completeness of the simplex at the previous successful `check` + `LayersOK`).  It
---   is automatic without tableau rows (`C07N_noRows`), hence along every history of the admitted operations
---   from `Net.init` (`C07N_all_histories_init_noGuard`): rows are only created by the slack-creating case of
---   `lraNewVarLin / lraNewRel / lraNewEq`, which is not admitted.
--- * `lraNewVarLin` / `lraNewRel` WHEN THEY CREATE A SLACK VARIABLE (and its row), and `lraNewEq`.
---   - Slack rows.  The bounds `lb(lin)`, `ub(lin)` of the new slack get the reason TRUE.  FINDING: the invariant
---     `LraJ orig` as defined (every bound whose reason is true holds for every α ⊨ orig that is consistent with
---     the LRA theory ALONE) cannot be re-established for them in general: the bounds they are computed from
---     have root-level reasons, and a root-level literal is entailed by `orig ++ L` where `L` may contain
---     lemmas of IDL / RDL - it is T-entailed (`NetSound.trail`) but not entailed modulo LRA alone.  `LraJ`
---     has to be restated relative to the full `TModel` (it is only ever used under `TModel`, in
---     `lra_propagate` / `lra_check`), or the slack-creating case restricted to "all current bounds of the
---     variables of the expression have reason TRUE" (the usual case: constraints created before the search).
---     In both versions what is missing is the soundness of the interval evaluation `lbLin / ubLin` in the
---     ε-rational semantics of `BoundsJust` (C11S's `lbLin_below / ubLin_above` are for rational valuations and
---     do not transfer: a bound with negative ε part is not below `σr + δ·σi` for a fixed δ); the other
---     invariants are available (`explInv_newVarLin`, `valsOK_newVarLin`, `Lra.newVarLin_good`).
---   - `lraNewEq` (two `newRel`s and `Sat.newConj`): the composition needs "the literal answered from the cache
---     `sAsrts` names an existing SAT variable", a registry invariant not yet in `NetReg`; not assembled.
---   - CONSERVATIVITY of a new LRA assertion is false for the same reason as for RDL below (`¬ (x ≤ v)` does not
---     give `x ≥ v + ε` for arbitrary ε-rational valuations); restriction (monotonicity) is proved.
--- * CONSERVATIVITY of `rdlNewDistance`: with `TModel` as defined (arbitrary ε-rational valuations of the RDL
---   time points) it is FALSE in general - `¬ (σ g - σ f ≤ w)` does not give `σ f - σ g ≤ -w - ε` when the ε
---   parts differ by a non-integer (C10R, correction 2); it would need `TModel` restricted to valuations with
---   integer ε parts.  Proved: restriction for all admitted constructors, equivalence for the `new_var`s and
---   the SAT constructors, conservativity for `idlNewDistance`.
+-- * `ConflictsCurrent` (the side condition `NetRun.guard` / `BjGuard`) as a THEOREM: every conflict of `lra.check`
+--   above root level cites a literal of the current decision level.  It needs "the bounds of the lower levels
+--   are feasible" (completeness of the simplex at the previous successful `check` + `LayersOK`).  It is a
+--   hypothesis (`guards`) of `C07N_all_histories(_init)`; it is automatic without tableau rows (`C07N_noRows`),
+--   hence along every history in which no LRA request creates a slack variable
+--   (`C07N_all_histories_init_noGuard`), and on a concrete run it can be established by evaluation
+--   (`C07N_conflictsCurrent_check`, used in the `NetEx3` example).
+-- * CONSERVATIVITY of a new LRA assertion / of `rdlNewDistance`: with `TModel` as defined (arbitrary ε-rational
+--   valuations) it is FALSE in general - `¬ (x ≤ v)` does not give `x ≥ v + ε`, and `¬ (σ g - σ f ≤ w)` does
+--   not give `σ f - σ g ≤ -w - ε` when the ε parts differ by a non-integer (C10R, correction 2); it would need
+--   `TModel` restricted to valuations with integer ε parts.  Proved: restriction (every T-model of the extended
+--   network is one of the old) for all admitted constructors, equivalence for the `new_var`s and the SAT
+--   constructors, conservativity for `idlNewDistance`.  (For a new slack ROW conservativity holds - C09B's
+--   `new_row` extends every solution - but is not restated here.)
 -- * `check(lits)`: inside its loop a literal may already be assigned when it is assumed; the decision is then
 --   not on the trail at its level, which the `DecOK` component of the invariant (needed for `next`) excludes.
 --   It needs C07's bounded `DecOK m`; not done.
